@@ -157,8 +157,9 @@ class _TopRR(Elaboratable):
         return m
 
 
-def configs_rr(tier):
-    return [{"kind": "schedfn_rr", "n": n} for n in (range(1, 7) if tier == "quick" else range(1, 11))]
+def configs_rr(tier, small=False):
+    ns = range(1, 5) if (small and tier == "quick") else range(1, 7) if tier == "quick" else range(1, 11)
+    return [{"kind": "schedfn_rr", "n": n} for n in ns]
 
 
 def run_rr(pid, cfg, ctx):
@@ -212,6 +213,16 @@ def run_rr(pid, cfg, ctx):
 
     pre = [inv(False)]
     tag = f"rr_scheduler[n={n}]"
+    if pid in ("C01", "C03"):
+        # the function's share of C01 / C03 holds in every state (no invariant needed)
+        if pid == "C03":
+            ctx.prove(f"{tag}.run_implies_ready_and_runnable", z3.And(*[z3.Implies(run_[k], req[k]) for k in range(n)]), hw=hw)
+        else:
+            ctx.prove(f"{tag}.at_most_one_runs", at_most_one(run_), pre=pre, hw=hw)
+            ctx.prove(f"{tag}.init.wf", hw.ts.at_init(inv(False)))
+            ctx.prove(f"{tag}.step.wf", inv(True), pre=pre, hw=hw)
+        ctx.cover(f"{tag}.all_request", z3.And(*pre, *req), hw=hw)
+        return
     ctx.prove(f"{tag}.init.wf", hw.ts.at_init(inv(False)))
     ctx.prove(f"{tag}.step.wf", inv(True), pre=pre, hw=hw)
     ctx.prove(f"{tag}.run_implies_ready_and_runnable", z3.And(*[z3.Implies(run_[k], req[k]) for k in range(n)]), pre=pre, hw=hw)
